@@ -16,6 +16,7 @@ PROPERTY = "C05"
 
 # rpms <= 0.3 ('manifest' payload with a src arch): the conversion harness is shared with C10
 rpms_03 = C10.rpms_old_src
+images_1x_src = C10.images_old_src
 
 REPO = os.path.dirname(os.path.dirname(os.path.abspath(ComposeInfo.__module__ and __import__("productmd").__file__)))
 PATH_FIELDS = ["os_tree", "packages", "repository", "isos", "images", "jigdos", "source_tree", "source_packages",
@@ -445,6 +446,10 @@ def jobs(tier, seed):
     for ws in (True, False):
         for wf in (True, False):
             out.append({"harness": "images_old", "params": {"with_subvariant": ws, "with_format": wf}})
+    # images 1.0 / 1.1 with source images under 'src' (the conversion harness of C10): several variants, with and without a src entry
+    for li, lay in enumerate(C10.LAYOUTS):
+        for ws in ((True, False) if big else (bool((li + seed) % 2),)):
+            out.append({"harness": "images_1x_src", "params": {"layout": lay, "with_subvariant": ws}})
     out.append({"harness": "rpms_10", "params": {}})
     for lay in C10.LAYOUTS:
         out.append({"harness": "rpms_03", "params": {"layout": lay}})
@@ -468,7 +473,7 @@ def jobs(tier, seed):
 
 META = {
     "fp_lemma": True,
-    "expected_covers": {"composeinfo_old": ["loaded", "rewritten"], "images_old": ["loaded", "rewritten"], "rpms_10": ["loaded"], "rpms_03": ["loaded", "rewritten"],
+    "expected_covers": {"composeinfo_old": ["loaded", "rewritten"], "images_old": ["loaded", "rewritten"], "rpms_10": ["loaded"], "rpms_03": ["loaded", "rewritten"], "images_1x_src": ["loaded", "rewritten"],
                         "treeinfo_old": ["loaded", "rewritten"], "treeinfo_00": ["loaded", "rewritten"], "fixture_idempotent": ["loaded"]},
     "assumptions": [
         "old documents are built by a down-converter in the harness (the documented mapping, written independently of the readers) with symbolic leaves; "
@@ -480,6 +485,7 @@ META = {
         "shipped historical fixtures are concrete: they are executed under the interpreter and natively with the idempotence oracle (ordinary execution, not a solver result); "
         "both tiers run all of them",
         "rpms 0.x documents: see C10 (same readers)",
+        "images 1.0 / 1.1 documents with source images filed under 'src': the layouts and the conversion harness of C10 (1-2 variants, 1-3 binary arches, src entry present/absent)",
         "JSON / INI text layers replaced by the DocText stubs",
     ],
 }
